@@ -396,8 +396,17 @@ def run(report, index, tier):
     report.trusted_base += [
         'CPython ast', 'ply.yacc LALR construction (library use on '
         'extracted productions)', 'transcription of ply.yacc.parse_grammar']
+    # acceptance as a function of characters: the literal token
+    # languages, automatic semicolon insertion and the reading of `/`
+    # decide which texts are accepted and which tree is built; their rules
+    # (C06 R06.5, C04, C05) are part of this property too
+    from .litlang import literal_rule
+    from . import c04, c05
+    literal_rule(report, index, M, 'R06.5')
+    c04.rules(report, index)
+    c05.rules(report, index)
     report.not_decided += [
-        'acceptance as a function of characters (lexing, ASI, regex vs '
-        'division): see C04/C05/C06', 'early errors (out of the property)']
+        'identifier / punctuator segmentation (C06 R06.2, R06.3)',
+        'early errors (out of the property)']
     from . import c03_reference
     c03_reference.run(report, index, pairs=True, deep=(tier == 'thorough'))
